@@ -88,9 +88,10 @@ theorem logOK_snoc {T : List Tx} {cs : List CTx} {c : Nat} (h : LogOK T cs c) (t
       show t ≤ _
       omega
 
-theorem TreeOK.mono {a a' cov : List Nat} {t : TreeImg} (h : TreeOK a cov t) (ha : ∀ q ∈ a, q ∈ a') : TreeOK a' cov t := by
-  obtain ⟨xs, pid, h1, h2, h3, h4⟩ := h.shape
-  exact ⟨⟨xs, pid, h1, h2, fun q hq => ha q (h3 q hq), h4⟩, h.noinode⟩
+theorem TreeOK.mono {a a' cov : List Nat} {top : Bool} {t : TreeImg} (h : TreeOK a cov top t) (ha : ∀ q ∈ a, q ∈ a') :
+    TreeOK a' cov top t := by
+  obtain ⟨X, h1, h3, h4⟩ := h.shape
+  exact ⟨⟨X, h1, fun q hq => ha q (h3 q hq), h4⟩⟩
 
 theorem storeOK_snoc {T : List Tx} {cs : List CTx} {p : PImg} (h : StoreOK T cs p) (t base : Nat) (tx : Tx)
     (ht : (scan cs).ckpt < t) : StoreOK (T ++ [tx]) (cs ++ [⟨t, body base tx⟩]) p := by
@@ -100,7 +101,7 @@ theorem storeOK_snoc {T : List Tx} {cs : List CTx} {p : PImg} (h : StoreOK T cs 
   have e2 : (scan (cs ++ [⟨t, body base tx⟩])).ckpt = (scan cs).ckpt := by rw [hsc]
   have e3 : (scan (cs ++ [⟨t, body base tx⟩])).proot = (scan cs).proot := by rw [hsc]
   have e4 : (scan (cs ++ [⟨t, body base tx⟩])).ptop = (scan cs).ptop := by rw [hsc]
-  refine ⟨by rw [e1]; exact h.segs, h.segKeys, h.treeKeys, ?_, ?_, by rw [e4]; exact h.ptop, ?_⟩
+  refine ⟨by rw [e1]; exact h.segs, h.segKeys, h.treeKeys, ?_, ?_, ?_⟩
   · intro e
     rw [e1, e2, logRuns_snoc_edges _ _ _ _ _ hnle, allEdges_snoc, ← List.append_assoc, List.mem_append, h.edges e, List.mem_append]
   · intro q hq
@@ -119,7 +120,7 @@ theorem storeOK_snoc {T : List Tx} {cs : List CTx} {p : PImg} (h : StoreOK T cs 
         · exact Or.inl (List.mem_append_left _ h')
         · exact Or.inr h'
       · exact Or.inl (List.mem_append_right _ hq)
-    · rw [e3]
+    · rw [e3, e4]
       intro hne
       obtain ⟨tr, hf, hto⟩ := h3 hne
       exact ⟨tr, hf, hto.mono (fun q hq => by rw [allProps_snoc]; exact List.mem_append_left _ hq)⟩
